@@ -23,7 +23,7 @@ from pydrobert.speech import util as _util
 PROPERTY = "C12"
 LEVEL = "exploration"
 TIERS = {
-    "quick": {"runs": 20000, "budget": 75, "selftest": 32, "shrink_budget": 300},
+    "quick": {"runs": 120000, "budget": 70, "selftest": 64, "shrink_budget": 300},
     "thorough": {"runs": 500000, "budget": 1200, "selftest": 2000, "shrink_budget": 1000},
 }
 NUM_FIXED = 8
